@@ -1025,17 +1025,24 @@ def generic_rules(prop, index, rep):
         rep.ob(rid2, "src/dendropy", "%d nested loops and %d None-guards in the property's modules examined" % (nl, ng), True, nontrivial=nl + ng > 0)
 
 
+_BORROW_CACHE = {}
+
+
 def borrow(index, rep, other_prop, rule_ids, as_rid, tier="quick"):
     """Run another property's rules and take over the obligations / findings of the selected rule ids under `as_rid`:
     several properties depend on one mechanism (e.g. the weighted distances on what encode_bipartitions caches)."""
     import importlib
     from ..core import Report
     mod = importlib.import_module("sa.rules.%s" % other_prop.lower())
-    tmp = Report(other_prop, index)
-    try:
-        mod.run(index, tmp, tier)
-    except AnalysisError as e:
-        tmp.errors.append(str(e))
+    ck = (id(index), other_prop)
+    tmp = _BORROW_CACHE.get(ck)
+    if tmp is None:
+        tmp = Report(other_prop, index)
+        try:
+            mod.run(index, tmp, tier)
+        except AnalysisError as e:
+            tmp.errors.append(str(e))
+        _BORROW_CACHE[ck] = tmp
     n = 0
     for o in tmp.obligations:
         if o["rule"] in rule_ids:
